@@ -50,10 +50,11 @@ def run(c):
 
     # ---- 1./2. sequences --------------------------------------------------------------
     fixed = [0, 1, 2, 42, 2 ** 31 - 1] + [2 ** k for k in range(2, 31)]
-    nrand = 40 if tier == "quick" else 1500
+    nrand = 40 if tier == "quick" else 600
     seeds = sorted(set(fixed + [rng.randrange(0, 2 ** 31) for _ in range(nrand)]))
     ndraw = 60
-    chunks = [seeds[i::6] for i in range(6)]
+    nch = 6 if tier == "quick" else 16
+    chunks = [seeds[i::nch] for i in range(nch)]
     long_seeds = [42] if tier == "quick" else [0, 42, 2 ** 31 - 1, rng.randrange(2 ** 30, 2 ** 31)]
     nlong = 1500 if tier == "quick" else 6000
 
